@@ -26,22 +26,28 @@ func main() {
 		tier = t
 	}
 	if tier == "--replay" {
-		c, err := checks.Build(id, "quick", seed)
-		if err != nil {
-			fmt.Println("INCONCLUSIVE:", err)
-			os.Exit(2)
-		}
 		if handled, code := checks.ReplayHostile(os.Args[3]); handled {
 			os.Exit(code)
 		}
 		if handled, code := checks.ReplayDecoder(os.Args[3]); handled {
 			os.Exit(code)
 		}
+		if handled, code := checks.ReplayFault(os.Args[3]); handled {
+			os.Exit(code)
+		}
+		c, err := checks.Build(id, "quick", seed)
+		if err != nil {
+			fmt.Println("INCONCLUSIVE:", err)
+			os.Exit(2)
+		}
 		os.Exit(c.Replay(os.Args[3]))
 	}
 	if tier != "quick" && tier != "thorough" {
 		fmt.Println("tier must be quick or thorough")
 		os.Exit(2)
+	}
+	if id == "C17" {
+		os.Exit(checks.RunC17(id, tier, seed))
 	}
 	c, err := checks.Build(id, tier, seed)
 	if err != nil {
